@@ -113,6 +113,9 @@ fn make_project(rng: &mut Rng) -> Project {
         "import { C } from \"./c\";\nexport type A = { c: C; a: string };\n",
         "import { C } from \"./lib/c\";\nexport interface A { list: C[] }\n",
         "export type A = \"x\" | \"y\";\nexport type Extra = 1;\n",
+        // the same declaration under two doc comments (descriptions are part of the emitted code)
+        "/** first wording */\nexport type A = { /** field doc */ a: string };\n",
+        "/** other wording */\nexport type A = { /** field doc, edited */ a: string };\n",
     ];
     let a_unresolvable = vec![
         "import { Q } from \"./missing\";\nexport type A = { q: Q };\n",
